@@ -31,7 +31,7 @@ COMPONENTS = {
              'run family: eps-MOEA / OMOPSO / SMPSO / PSOGA loops'],
     'stub': ['user objective (run family)', 'PRNG seam', 'joblib', 'time.time', 'uuid1'],
 }
-PROBES_EXPECTED = ['archive_family', 'run_family', 'reorder', 'duplicate', 'evicts_two_or_more', 'duplicate_offer_rejected',
+PROBES_EXPECTED = ['infinite_cost_tie', 'truncated_again_smaller', 'archive_family', 'run_family', 'reorder', 'duplicate', 'evicts_two_or_more', 'duplicate_offer_rejected',
                    'dominated_offer_rejected', 'default_comparator_after_smaller_problem', 'twin_design_vectors', 'infeasible_offers', 'real_valued_violation_degree', 'truncate_checked', 'eps_comparator', 'pareto_comparator']
 
 
@@ -114,9 +114,14 @@ def _archive(D):
     use_eps = cmpk >= 1
     eps = (0.1, 0.01, 0.5, 1.0, [0.1, 0.3])[D.dec('cfg', 'eps', 5)]
     infeas = D.weighted('cfg', 'infeasible', (2, 1))
+    infcost = D.weighted('cfg', 'infcost', (6, 1, 1)) if not use_eps else 0     # (box indices of the epsilon comparator need finite costs)
     offers = []
     for i in range(k):
         cs = [0.25 * (D.dec('work', ('c', i, j), span) - span // 2) for j in range(m)]
+        if infcost and D.dec('work', ('ci', i), 3) == 1:
+            # a penalty value: the same infinity in one objective of several offers is an exact tie there
+            cs[D.dec('work', ('cij', i), m)] = math.inf if infcost == 1 else -math.inf
+            ctx.probe('infinite_cost_tie')
         mk = False
         if infeas:
             # markers as the library writes them (False/True) and as violation degrees of either sign (the comparators
@@ -192,6 +197,20 @@ def _archive(D):
                 if after != before[:size]:
                     ctx.violation('truncate_topk', 'Archive.truncate', 'truncate(%d, larger_preferred=%s) kept feature values %r out of %r'
                                   % (size, larger, after, before))
+                elif len(after) >= 2:
+                    # the same archive truncated again, to a smaller size, with nothing offered in between (the population
+                    # size was lowered): "truncating to a size" holds for every call
+                    size2 = 1 + D.dec('work', 'tsize2', len(after) - 1)
+                    if larger:
+                        arch.truncate(size2, 'crowding_distance')
+                    else:
+                        arch.truncate(size2, 'crowding_distance', larger_preferred=False)
+                    after2 = sorted((s.features['crowding_distance'] for s in arch), reverse=larger)
+                    ctx.probe('truncated_again_smaller')
+                    ctx.check()
+                    if after2 != after[:size2]:
+                        ctx.violation('truncate_topk', 'Archive.truncate', 'a second truncate(%d, larger_preferred=%s) right after '
+                                      'truncate(%d) kept feature values %r out of %r' % (size2, larger, size, after2, after))
             except Exception as e:
                 ctx.violation('unexpected_exception', 'Archive.truncate', 'truncate raised %r' % (e,))
     ctx.sample = {'family': 'archive', 'comparator': cmp_name, 'offers': [list(map(float, s.costs_signed[:-1])) + [s.costs_signed[-1]]
